@@ -335,6 +335,21 @@ class FakeSocket:
             k.log("sock", self.cid, op, "EBADF-closed")
             raise OSError(errno.EBADF, "Bad file descriptor")
         f = self.faults.pop((op, n), None)
+        if f == -1:
+            # client reset taking effect at this call
+            self.rst = True
+            self.inq.clear()
+            k.probe("fault:" + op + ":RST")
+            k.log("fault", self.cid, op, n, "RST")
+            k.progress += 1
+            f = None
+        elif f == -2:
+            self.in_fin = True
+            self.inq.clear()
+            k.probe("fault:" + op + ":FIN")
+            k.log("fault", self.cid, op, n, "FIN")
+            k.progress += 1
+            f = None
         if f is not None:
             k.probe("fault:" + op + ":" + errno.errorcode.get(f, str(f)))
             k.log("fault", self.cid, op, n, errno.errorcode.get(f, str(f)))
